@@ -227,6 +227,56 @@ class ASet:
         return "{" + ", ".join(map(repr, self.items)) + "}"
 
 
+class Native:
+    """Whitelisted pure stdlib object (compiled regex / match): constant folding of pure primitives."""
+    ALLOWED = {"Pattern": ("search", "match", "fullmatch", "sub", "split", "findall", "pattern"),
+               "Match": ("groups", "group", "groupdict", "start", "end", "span")}
+
+    def __init__(self, obj):
+        self.obj = obj
+
+    def __repr__(self):
+        return f"<native {self.obj!r}>"
+
+
+def _native_re():
+    import re as _re
+
+    def wrap(v):
+        if isinstance(v, (_re.Pattern, _re.Match)):
+            return Native(v)
+        if isinstance(v, tuple):
+            return tuple(wrap(x) for x in v)
+        return v
+
+    def compile_(p, flags=0):
+        return Native(_re.compile(p, flags))
+
+    def sub(p, repl, s, count=0, flags=0):
+        if not all(isinstance(x, str) for x in (p, repl, s)):
+            raise AnalysisError("re.sub on non-text")
+        return _re.sub(p, repl, s, count, flags)
+
+    def mk(name):
+        def f(p, s, flags=0):
+            if not isinstance(p, str) or not isinstance(s, str):
+                raise AnalysisError(f"re.{name} on non-text")
+            return wrap(getattr(_re, name)(p, s, flags))
+        return f
+    d = {"compile": compile_, "sub": sub, "VERBOSE": _re.VERBOSE, "IGNORECASE": _re.IGNORECASE, "X": _re.X, "I": _re.I}
+    for n in ("match", "search", "fullmatch"):
+        d[n] = mk(n)
+    return d, wrap
+
+
+def _live(lst):
+    """iterate a list the way CPython does: by index against the live list."""
+    i = 0
+    while i < len(lst):
+        yield lst[i]
+        i += 1
+
+
 class Module:
     def __init__(self, name, path):
         self.name = name
@@ -344,7 +394,7 @@ class Interp:
             "enum": {"Enum": External("Enum"), "IntEnum": External("IntEnum"), "auto": External("auto")},
             "platform": {"python_implementation": External("python_implementation")},
             "struct": {}, "sysconfig": {},
-            "re": {"compile": lambda *a, **k: External("re.Pattern")},
+            "re": _native_re()[0],
             "packaging.markers": {"default_environment": External("default_environment"),
                                   "InvalidMarker": EXC["ValueError"], "Marker": External("Marker")},
             "packaging.version": {"Version": External("Version"), "InvalidVersion": EXC["InvalidVersion"]},
@@ -538,7 +588,8 @@ class Interp:
             self.eval(st.value, env, m)
             return
         if t is ast.For:
-            it = self.iterate(self.eval(st.iter, env, m))
+            itv = self.eval(st.iter, env, m)
+            it = _live(itv) if isinstance(itv, list) else self.iterate(itv)
             broke = False
             for item in it:
                 self.assign(st.target, item, env, m)
@@ -700,7 +751,7 @@ class Interp:
             raise AnalysisError("truth value of version token")
         if isinstance(v, ASet):
             return len(v.items) > 0
-        if isinstance(v, AIter):
+        if isinstance(v, (AIter, Native, Func, Bound, ClassInfo, External)):
             return True
         return bool(v)
 
@@ -712,8 +763,16 @@ class Interp:
         if isinstance(v, AObj):
             r, _ = v.cls.lookup("__iter__")
             if r is MISSING:
-                raise AnalysisError(f"not iterable {v.cls.name}")
+                if getattr(v.cls, "is_enum", False):
+                    raise AnalysisError("iterating an enum member")
+                raise PyRaise(BuiltinExcValue(EXC["TypeError"], ("not iterable", v.cls.name)))
             return self.iterate(self.call(Bound(r, v), [], {}))
+        if isinstance(v, Sym) and hasattr(v, "sym_iter"):
+            return list(v.sym_iter())
+        if isinstance(v, ClassInfo) and getattr(v, "is_enum", False):
+            return list(v.members)
+        if v is None or isinstance(v, (int, bool)):
+            raise PyRaise(BuiltinExcValue(EXC["TypeError"], ("not iterable", repr(v))))
         raise AnalysisError(f"iterate {type(v).__name__}")
 
     def eval(self, n, env, m):
@@ -754,6 +813,8 @@ class Interp:
             if attr in obj.f:
                 return obj.f[attr]
             if cv is MISSING:
+                if attr == "_hash" and self.is_absset(obj):
+                    return lambda: ("set", frozenset(self.py_hash(v) for v in self.iterate(obj)))
                 if attr == "__class__":
                     return obj.cls
                 raise PyRaise(BuiltinExcValue(EXC["AttributeError"], (attr,)))
@@ -776,13 +837,29 @@ class Interp:
             return stub[attr]
         if isinstance(obj, tuple) and obj and obj[0] == "module":
             return self.resolve(obj[1].ns[attr])
+        if isinstance(obj, Native):
+            kind = "Pattern" if hasattr(obj.obj, "pattern") else "Match"
+            if attr not in Native.ALLOWED[kind]:
+                raise AnalysisError(f"re.{kind}.{attr} not whitelisted")
+            val = getattr(obj.obj, attr)
+            if callable(val):
+                wrap = _native_re()[1]
+
+                def _call(*a, _val=val, **k):
+                    if any(isinstance(x, (AObj, VTok, Sym)) for x in a):
+                        raise AnalysisError("regex applied to abstract value")
+                    return wrap(_val(*a, **k))
+                return _call
+            return val
         if isinstance(obj, VTok):
+            if hasattr(obj, "vattr_" + attr):
+                return getattr(obj, "vattr_" + attr)
             raise AnalysisError(f"attribute .{attr} on version token (slice not order-parametric)")
         if isinstance(obj, Sym):
             if not hasattr(obj, "sym_" + attr):
                 raise AnalysisError(f"attribute .{attr} not whitelisted on symbolic {obj!r}")
             return getattr(obj, "sym_" + attr)
-        if isinstance(obj, (str, list, tuple, dict, set)):
+        if isinstance(obj, (str, list, tuple, dict, set, frozenset, ASet)):
             return ("pymethod", obj, attr)
         if obj is self.builtins["object"] and attr == "__setattr__":
             return ("builtin", "object_setattr")
@@ -1134,7 +1211,11 @@ class Interp:
             r, _ = v.cls.lookup("__str__")
             return self.call(Bound(r, v), [], {})
         if isinstance(v, VTok):
+            if hasattr(v, "vstr"):
+                return v.vstr()
             raise AnalysisError("str() of version token")
+        if isinstance(v, (Native, Func, Bound, ClassInfo, External)):
+            raise AnalysisError(f"str() of {type(v).__name__}")
         return str(v)
 
     def e_Call(self, n, env, m):
@@ -1342,6 +1423,12 @@ class Interp:
             raise PyRaise(BuiltinExcValue(EXC["TypeError"], ("len of iterator",)))
         if isinstance(x, ASet):
             return len(x.items)
+        if isinstance(x, Sym):
+            if hasattr(x, "sym_len"):
+                return x.sym_len()
+            raise AnalysisError(f"len() of symbolic {x!r}")
+        if isinstance(x, (VTok, Native)) or x is None or isinstance(x, (int, bool)):
+            raise PyRaise(BuiltinExcValue(EXC["TypeError"], ("len",)))
         return len(x)
 
     def b_isinstance(self, x, c):
